@@ -308,8 +308,42 @@ def other_forms(r, quick, prop):
                     bd, hd, mr, len(ar_blocks), len(ref_blocks), len(ar_data), len(ref_data)), "rate": rate, "sw": w, "ch": ch, "samples": n}
         except Exception as e:
             viol = viol or {"what": "building or reading a reader from positional arguments raised %s: %s" % (type(e).__name__, e)}
+        # open() on a reader that is already open is a no-op (split() itself calls open() on the reader it is given): the blocks
+        # after it continue the sequence
+        evals += 1
+        try:
+            k_ = r.randint(0, max(1, len(ref_blocks)))
+            ro = AudioReader(data, block_dur=bd, hop_dur=hd, max_read=mr, record=r.random() < 0.3, **kw); ro.open()
+            seq = [ro.read() for _k in range(k_)]
+            ro.open()
+            seq += drain(ro)
+            seq = [bytes(b) for b in seq if b is not None]
+            if viol is None and seq != ref_blocks:
+                viol = {"what": "AudioReader (block %d, hop %r samples, max_read %r): after %d reads a second open() on the open reader, then reading on: %d blocks %r..., a reader opened once delivers %d blocks %r..." % (
+                    W, H, mr, k_, len(seq), [list(b[:4]) for b in seq[k_:k_ + 2]], len(ref_blocks), [list(b[:4]) for b in ref_blocks[k_:k_ + 2]]), "rate": rate, "sw": w, "ch": ch, "samples": n}
+        except Exception as e:
+            viol = viol or {"what": "open() on an open reader raised %s: %s" % (type(e).__name__, e)}
         if prop != "C19" or n == 0:
             continue
+        # the reader is closed before the first rewind (what the command line does before plotting): data is still what was consumed
+        evals += 1
+        try:
+            k_ = r.randint(0, len(ref_blocks) + 1)
+            for cls_kw in (dict(use=Recorder, kw={}), dict(use=AudioReader, kw=dict(record=True))):
+                rc = cls_kw["use"](data, block_dur=bd, hop_dur=hd, max_read=mr, **cls_kw["kw"], **kw); rc.open()
+                got = [rc.read() for _k in range(k_)]
+                got = [bytes(b) for b in got if b is not None]
+                hop = W if H is None else H
+                consumed = b"" if not got else got[0] + b"".join(g[(W - hop) * bps:] for g in got[1:])
+                rc.close(); rc.rewind()
+                d = bytes(rc.data)
+                again = [rc.read() for _k in range(len(got))]
+                again = [None if b is None else bytes(b) for b in again]
+                if viol is None and (d != consumed or again != got):
+                    viol = {"what": "%s (block %d, hop %r samples, max_read %r) read %d blocks, then close(), rewind(): data holds %d bytes (%d were consumed), the replay returns %d of the %d blocks" % (
+                        cls_kw["use"].__name__, W, H, mr, len(got), len(d), len(consumed), sum(1 for a_, b_ in zip(again, got) if a_ == b_), len(got)), "rate": rate, "sw": w, "ch": ch, "samples": n}
+        except Exception as e:
+            viol = viol or {"what": "close() followed by rewind() on a recording reader raised %s: %s" % (type(e).__name__, e)}
         # a recorder over a source that has already been read from
         pre = r.randint(1, n)
         evals += 1
